@@ -76,8 +76,32 @@ func genDetProject(r *gen.Rand, rep *Report) detProject {
 		fmt.Fprintf(&lb, "let x = \"leaf%d\";\nexport function leaf%d(o) { o.%s = x; return { %s: o.%s, own%d_: 1 }; }\n", i, i, c, d, c, i)
 		p.Files[fmt.Sprintf("leaf%d.js", i)] = lb.String()
 	}
+	// an ambiguous name: two "export *" of one module provide the same name from two files, and each of those
+	// files is first reached through a DIFFERENT sibling (so the order in which they are discovered, and with
+	// it their raw source index, depends on which sibling finishes loading first)
+	ambig := r.Chance(1, 3)
+	ambigErr := ambig && r.Chance(1, 3)
+	if ambig {
+		p.Files["amb_a.js"] = "export const dup = \"a\", onlyA = 1;\n"
+		p.Files["amb_b.js"] = "export const dup = \"b\", onlyB = 2;\n"
+		p.Files["common.js"] = "export * from \"./amb_a.js\";\nexport * from \"./amb_b.js\";\n"
+		i, j := r.Intn(nSib), r.Intn(nSib)
+		if i == j {
+			j = (i + 1) % nSib
+		}
+		p.Files[fmt.Sprintf("sib%d.js", i)] = "import { onlyB } from \"./amb_b.js\";\nconsole.log(onlyB);\n" + p.Files[fmt.Sprintf("sib%d.js", i)]
+		p.Files[fmt.Sprintf("sib%d.js", j)] = "import { onlyA } from \"./amb_a.js\";\nconsole.log(onlyA);\n" + p.Files[fmt.Sprintf("sib%d.js", j)]
+		rep.stat("project:ambiguous-star-export")
+	}
 	for e := 0; e < nEnt; e++ {
 		var sb strings.Builder
+		if ambig && e == 0 {
+			if ambigErr {
+				sb.WriteString("import { dup } from \"./common.js\";\nconsole.log(dup);\n")
+			} else {
+				sb.WriteString("import * as cns from \"./common.js\";\nconsole.log(cns.dup);\n")
+			}
+		}
 		for i := 0; i < nSib; i++ {
 			if e == 0 || r.Chance(2, 3) {
 				fmt.Fprintf(&sb, "import { sib%d } from \"./sib%d.js\";\nconsole.log(sib%d({}));\n", i, i, i)
@@ -296,7 +320,7 @@ func c08Case(rep *Report, r *gen.Rand, workdir string, class string, p detProjec
 
 func init() {
 	searches["c08-det"] = func(r *gen.Rand, count int, workdir string, rep *Report) {
-		rep.Rule = "projects with 1-3 entry points, 4-13 same-shaped siblings each with its own leaf, shared leaves, colliding top-level names, mangled properties with equal use counts (x mangle cache), missing imports with several typo candidates, CSS and file assets; x format/splitting/minify/sourcemap/name templates. Each is built once as reference and then 8 (quick) or 24 (thorough) more times in the same process: with per-file random load delays, under GOMAXPROCS in {1,2,3,4,8,16}, beside two concurrent sibling builds, and from a copy at another absolute path. Output file names+contents, metafile, mangle cache, errors and warnings (text, location, notes, suggestions) must all be identical. Also: unresolvable entry points (diagnostics without location). non-trivial = every case"
+		rep.Rule = "projects with 1-3 entry points, 4-13 same-shaped siblings each with its own leaf, shared leaves, colliding top-level names, mangled properties with equal use counts (x mangle cache), missing imports with several typo candidates, an ambiguous name provided by two export-star files that are first reached through different siblings (warning or error with two notes), CSS and file assets; x format/splitting/minify/sourcemap/name templates. Each is built once as reference and then 8 (quick) or 24 (thorough) more times in the same process: with per-file random load delays, under GOMAXPROCS in {1,2,3,4,8,16}, beside two concurrent sibling builds, and from a copy at another absolute path. Output file names+contents, metafile, mangle cache, errors and warnings (text, location, notes, suggestions) must all be identical. Also: unresolvable entry points (diagnostics without location). non-trivial = every case"
 		runs := 8
 		if os.Getenv("VERIF_TIER") == "thorough" {
 			runs = 24
